@@ -3,6 +3,7 @@ import ShkModel.Driver.C18
 import ShkModel.Driver.C19
 import ShkModel.Driver.C12
 import ShkModel.Driver.C13
+import ShkModel.Driver.C15
 import ShkModel.Driver.C16
 import ShkModel.Driver.C17
 import ShkModel.Driver.C06
@@ -25,6 +26,7 @@ def dispatch (line : String) : String :=
   | "C19" :: rest => C19.handle rest
   | "C12" :: rest => C12.handle rest
   | "C13" :: rest => C13.handle rest
+  | "C15" :: rest => C15.handle rest
   | "C16" :: rest => C16.handle rest
   | "C17" :: rest => C17.handle rest
   | "C06" :: rest => C06.handle rest
